@@ -8,7 +8,13 @@ is pushed is an abstract `Payload` (so the theorems hold for every dictionary, p
 `ObsEq` = what a caller can observe of a finished analysis (result path, every buffer field except the
 private scratch string, subset, mode).  The theorems quantify over ARBITRARY prior working states, which
 covers every history; the two buffers `reset` does not clear (`top_path_ids`, `replaces`) are empty
-between calls by `analyse_keeps_invariant` / `fresh_invariant`.
+between calls by `analyse_keeps_invariant` / `fresh_invariant` / `run_keeps_invariant`.
+
+`StatefulTokenizer::reset` exists in two variants (`Recycle.ResetVariant`): `cur` = the tree as it was (only an
+existing result path is cleared), `fix` = the repair (`get_or_insert_with(Vec::new).clear()`).  Theorems with a
+parameter `v` hold for both.  For `fix` the property holds in full (`history_independent`, `failure_recoverable`,
+`ok_analysis_collectable`, `run_history_independent`); for `cur` it is false (`top_path_none_counterexample`) and
+only the `…_partial` statements ("result path present") hold.
 -/
 namespace C10
 open Recycle
@@ -22,23 +28,41 @@ result path is present in both or absent in both, and that agree on the two drai
 analysing the same text gives the same outcome (Ok / which error / panic) and, when Ok, the same observable
 result.  Hypothesis `OffsetsInRange`: the position loop stays below the lattice size (`mod_c2b` has one entry
 per character + sentinel; a payload fact established by `InputBuffer::build`, C08). -/
-theorem reset_establishes (P : Payload E) (t t' : Tok E) (text : List E)
+theorem reset_establishes (v : ResetVariant) (P : Payload E) (t t' : Tok E) (text : List E)
     (hrep : t.input.replaces = t'.input.replaces) (hids : t.topPathIds = t'.topPathIds)
     (hpath : t.topPath.isSome = t'.topPath.isSome) (hs : t.subset = t'.subset) (hm : t.mode = t'.mode)
-    (hlen : OffsetsInRange P t text) :
-    (t.analyse P text).2 = (t'.analyse P text).2 ∧
-    ((t.analyse P text).2 = .ok → ObsEq (t.analyse P text).1 (t'.analyse P text).1) :=
-  analyse_congr P t t' text hrep hids hpath hs hm hlen
+    (hlen : OffsetsInRange v P t text) :
+    (t.analyse v P text).2 = (t'.analyse v P text).2 ∧
+    ((t.analyse v P text).2 = .ok → ObsEq (t.analyse v P text).1 (t'.analyse v P text).1) :=
+  analyse_congr v P t t' text hrep hids (fun _ => hpath) hs hm hlen
+
+/-- **reset_establishes for the repaired `reset`**: the hypothesis on the result path is gone - `reset` itself
+establishes it.  Any two working states with the same mode, effective subset and drain-maintained buffers. -/
+theorem reset_establishes_fix (P : Payload E) (t t' : Tok E) (text : List E)
+    (hrep : t.input.replaces = t'.input.replaces) (hids : t.topPathIds = t'.topPathIds)
+    (hs : t.subset = t'.subset) (hm : t.mode = t'.mode) (hlen : OffsetsInRange .fix P t text) :
+    (t.analyse .fix P text).2 = (t'.analyse .fix P text).2 ∧
+    ((t.analyse .fix P text).2 = .ok → ObsEq (t.analyse .fix P text).1 (t'.analyse .fix P text).1) :=
+  analyse_congr .fix P t t' text hrep hids (fun h => by cases h) hs hm hlen
 
 /-- the invariant on the two buffers that `reset` leaves alone holds for a new tokenizer … -/
 theorem fresh_invariant (m : Mode) (s : Option Subset) : Inv (Tok.freshFor (E := E) m s) := by
   cases s <;> exact ⟨rfl, rfl⟩
 
 /-- … and is re-established by every analysis at every exit (Ok, `TooLong` at `start_build` or `commit`,
-`Disconnect` in the loop or at EOS, error or panic after the path was taken). -/
-theorem analyse_keeps_invariant (P : Payload E) (t : Tok E) (text : List E) (h : Inv t) :
-    Inv (t.analyse P text).1 :=
-  analyse_inv P t text h
+`Disconnect` in the loop or at EOS, error or panic after the path was taken), for both variants of `reset`. -/
+theorem analyse_keeps_invariant (v : ResetVariant) (P : Payload E) (t : Tok E) (text : List E) (h : Inv t) :
+    Inv (t.analyse v P text).1 :=
+  analyse_inv v P t text h
+
+/-- **the invariant over whole operation histories** (`World.run`): starting from a new tokenizer, after ANY
+sequence of `set_mode`, `set_subset`, analyses (whatever their outcome), `collect_results` into any list
+(also the panicking half-swap), new lists, `empty_clone`, `clear`, `split_into`, `lookup` (also failing) - each
+with its own payload - the tokenizer satisfies `Inv` and so does every `InputPart` that a later
+`collect_results` can swap into it.  Both variants of `reset`. -/
+theorem run_keeps_invariant (v : ResetVariant) (m : Mode) (ops : List (Payload E × Op E)) :
+    Inv ((World.init m).run v ops).tok ∧ ∀ p ∈ ((World.init m).run v ops).parts, p.input.replaces = [] :=
+  run_inv v ops _ (WInv.init m)
 
 /-- **history_independent** (for a tokenizer whose result path is present - see
 `top_path_none_counterexample` for why this cannot be dropped).  A tokenizer in ANY working state `t` that
@@ -47,33 +71,118 @@ created now with the same mode and the same effective subset reports.
 
 Full statement of the property also covers `t.topPath = none` (after a failure behind `resolve_best_path`);
 that part is `top_path_none_recovers` (non-empty normalised text) and is FALSE for an empty text. -/
-theorem history_independent_partial (P : Payload E) (t : Tok E) (text : List E) (hinv : Inv t)
-    (hpath : t.topPath.isSome = true) (hlen : OffsetsInRange P t text) :
+theorem history_independent_partial (v : ResetVariant) (P : Payload E) (t : Tok E) (text : List E) (hinv : Inv t)
+    (hpath : t.topPath.isSome = true) (hlen : OffsetsInRange v P t text) :
     let fresh : Tok E := { Tok.create t.mode with subset := t.subset }
-    (t.analyse P text).2 = (fresh.analyse P text).2 ∧
-    ((t.analyse P text).2 = .ok → ObsEq (t.analyse P text).1 (fresh.analyse P text).1) := by
+    (t.analyse v P text).2 = (fresh.analyse v P text).2 ∧
+    ((t.analyse v P text).2 = .ok → ObsEq (t.analyse v P text).1 (fresh.analyse v P text).1) := by
   intro fresh
-  apply analyse_congr P t fresh text
+  apply analyse_congr v P t fresh text
   · rw [hinv.2]; rfl
   · rw [hinv.1]; rfl
-  · rw [hpath]; rfl
+  · intro _; rw [hpath]; rfl
   · rfl
   · rfl
   · exact hlen
 
-/-- **failure_recoverable.**  After an analysis that failed with `TooLong` or `Disconnect` (both are raised
-before the result path is taken) the tokenizer analyses the next text exactly as a new one. -/
-theorem failure_recoverable (P P' : Payload E) (t : Tok E) (bad text : List E) (e : Err) (he : e ≠ .other)
-    (hinv : Inv t) (hpath : t.topPath.isSome = true) (hfail : (t.analyse P bad).2 = .err e)
-    (hlen : OffsetsInRange P' (t.analyse P bad).1 text) :
-    let t1 := (t.analyse P bad).1
+/-- **history_independent, FULL statement, for the repaired `reset`.**  A tokenizer in ANY working state `t` that
+satisfies the drain invariant `Inv` (every state reached by any history does: `run_keeps_invariant`) - whatever
+its lattice rows, tables, scratch buffers, and whether its result path is present or was taken by an analysis that
+failed afterwards - reports for every text exactly what a tokenizer created now with the same mode and the same
+effective subset reports: same outcome and, when Ok, the same observable result (path, buffers, subset, mode).
+No hypothesis on `t.topPath`. -/
+theorem history_independent (P : Payload E) (t : Tok E) (text : List E) (hinv : Inv t)
+    (hlen : OffsetsInRange .fix P t text) :
+    let fresh : Tok E := { Tok.create t.mode with subset := t.subset }
+    (t.analyse .fix P text).2 = (fresh.analyse .fix P text).2 ∧
+    ((t.analyse .fix P text).2 = .ok → ObsEq (t.analyse .fix P text).1 (fresh.analyse .fix P text).1) := by
+  intro fresh
+  apply analyse_congr .fix P t fresh text
+  · rw [hinv.2]; rfl
+  · rw [hinv.1]; rfl
+  · intro h; cases h
+  · rfl
+  · rfl
+  · exact hlen
+
+/-- **history independence over whole histories, repaired `reset`** (`World.run` induction assembled with
+`history_independent`).  Start from a new tokenizer, run ANY history of API calls (each with its own payload, any
+outcomes); the tokenizer then analyses any text exactly as a tokenizer created now with the mode and effective
+subset the history left. -/
+theorem run_history_independent (m : Mode) (ops : List (Payload E × Op E)) (P : Payload E) (text : List E)
+    (hlen : OffsetsInRange .fix P ((World.init m).run .fix ops).tok text) :
+    let t := ((World.init m).run .fix ops).tok
+    let fresh : Tok E := { Tok.create t.mode with subset := t.subset }
+    (t.analyse .fix P text).2 = (fresh.analyse .fix P text).2 ∧
+    ((t.analyse .fix P text).2 = .ok → ObsEq (t.analyse .fix P text).1 (fresh.analyse .fix P text).1) :=
+  history_independent P _ text (run_inv .fix ops _ (WInv.init m)).1 hlen
+
+/-- the same for the `reset` as it was: needs the result path to be present after the history -/
+theorem run_history_independent_partial (v : ResetVariant) (m : Mode) (ops : List (Payload E × Op E)) (P : Payload E)
+    (text : List E) (hpath : ((World.init m).run v ops).tok.topPath.isSome = true)
+    (hlen : OffsetsInRange v P ((World.init m).run v ops).tok text) :
+    let t := ((World.init m).run v ops).tok
+    let fresh : Tok E := { Tok.create t.mode with subset := t.subset }
+    (t.analyse v P text).2 = (fresh.analyse v P text).2 ∧
+    ((t.analyse v P text).2 = .ok → ObsEq (t.analyse v P text).1 (fresh.analyse v P text).1) :=
+  history_independent_partial v P _ text (run_inv v ops _ (WInv.init m)).1 hpath hlen
+
+/-- **failure_recoverable, partial (both variants).**  After an analysis that failed with `TooLong` or `Disconnect`
+(both are raised before the result path is taken) the tokenizer analyses the next text exactly as a new one. -/
+theorem failure_recoverable_partial (v : ResetVariant) (P P' : Payload E) (t : Tok E) (bad text : List E) (e : Err)
+    (he : e ≠ .other) (hinv : Inv t) (hpath : t.topPath.isSome = true) (hfail : (t.analyse v P bad).2 = .err e)
+    (hlen : OffsetsInRange v P' (t.analyse v P bad).1 text) :
+    let t1 := (t.analyse v P bad).1
     let fresh : Tok E := { Tok.create t1.mode with subset := t1.subset }
-    (t1.analyse P' text).2 = (fresh.analyse P' text).2 ∧
-    ((t1.analyse P' text).2 = .ok → ObsEq (t1.analyse P' text).1 (fresh.analyse P' text).1) := by
+    (t1.analyse v P' text).2 = (fresh.analyse v P' text).2 ∧
+    ((t1.analyse v P' text).2 = .ok → ObsEq (t1.analyse v P' text).1 (fresh.analyse v P' text).1) := by
   intro t1 fresh
   have hp : t1.topPath.isSome = true := by
-    rw [analyse_err_keeps_path P t bad e he hfail]; exact hpath
-  exact history_independent_partial P' t1 text (analyse_inv P t bad hinv) hp hlen
+    show (t.analyse v P bad).1.topPath.isSome = true
+    rw [analyse_err_keeps_path v P t bad e he hfail]; exact resetPath_isSome v _ hpath
+  exact history_independent_partial v P' t1 text (analyse_inv v P t bad hinv) hp hlen
+
+/-- **failure_recoverable, FULL statement, for the repaired `reset`.**  After an analysis that failed in ANY way -
+`TooLong` at `start_build` or inside `commit`, an input-plugin error, `Disconnect` in the loop or at EOS, and also
+an `Err` or a panic AFTER `resolve_best_path` took the result path (word-info error, path-rewrite plugin error,
+panic in `split_path`) - the tokenizer, whatever state it was in before, analyses the next text exactly as a new
+one with the same mode and effective subset.  No hypothesis on the path, before or after the failure. -/
+theorem failure_recoverable (P P' : Payload E) (t : Tok E) (bad text : List E) (hinv : Inv t)
+    (_hfail : (t.analyse .fix P bad).2 ≠ .ok) (hlen : OffsetsInRange .fix P' (t.analyse .fix P bad).1 text) :
+    let t1 := (t.analyse .fix P bad).1
+    let fresh : Tok E := { Tok.create t1.mode with subset := t1.subset }
+    (t1.analyse .fix P' text).2 = (fresh.analyse .fix P' text).2 ∧
+    ((t1.analyse .fix P' text).2 = .ok → ObsEq (t1.analyse .fix P' text).1 (fresh.analyse .fix P' text).1) :=
+  history_independent P' _ text (analyse_inv .fix P t bad hinv) hlen
+
+/-- **an Ok analysis can always be collected (repaired `reset`).**  Whatever state the tokenizer is in (result
+path taken or not), an analysis that returns Ok leaves a result path, so `collect_results` into any list does not
+panic (`self.top_path.as_mut().unwrap()` in `swap_result`).  This is the clause the `reset` as it was violates
+(`top_path_none_counterexample`). -/
+theorem ok_analysis_collectable (P : Payload E) (w : World E) (text : List E) (j : Nat)
+    (hok : (w.step .fix P (.analyse text)).2 = .ok) :
+    (w.step .fix P (.analyse text)).1.tok.topPath.isSome = true ∧
+    ((w.step .fix P (.analyse text)).1.collect j).2 = .ok := by
+  have hp : (w.tok.analyse .fix P text).1.topPath.isSome = true := analyse_ok_path .fix P w.tok text rfl hok
+  refine ⟨hp, ?_⟩
+  show (World.collect { w with tok := (w.tok.analyse .fix P text).1 } j).2 = .ok
+  unfold World.collect
+  dsimp only
+  split
+  · rfl
+  · split
+    · rfl
+    · split
+      · rename_i hnone
+        rw [hnone] at hp; cases hp
+      · rfl
+
+/-- mode and effective subset are changed by `set_mode` / `set_subset` only: an analysis, whatever its outcome
+and for both variants of `reset`, keeps them (so "the same mode and effective subset" in the statements above is
+what the last `set_mode` / `set_subset` left) -/
+theorem analyse_keeps_mode_subset (v : ResetVariant) (P : Payload E) (t : Tok E) (text : List E) :
+    (t.analyse v P text).1.mode = t.mode ∧ (t.analyse v P text).1.subset = t.subset :=
+  analyse_mode_subset v P t text
 
 /-- **lattice_reset_clears_all_rows.**  `Lattice::reset` empties EVERY allocated row of the three parallel
 vectors - also those at or above the new `size` - except for the BOS entry of `ends[0]`; no row is dropped. -/
@@ -146,16 +255,46 @@ tokenizer usable" on a concrete history).  History: `new list; analyse "a"` (fai
 result.  The model mirrors stateful_tokenizer.rs:107-110 (`reset` only clears an existing path), :124-126
 (early `return Ok(())` for an empty text), :176 (`mem::replace(&mut self.top_path, None)`), :214 (`unwrap`). -/
 theorem top_path_none_counterexample :
-    let w0 : World Nat := (World.init .C).run [(plain, .newList)]
-    let w1 := w0.run [(failingAfterTake, .analyse [1])]
+    let w0 : World Nat := (World.init .C).run .cur [(plain, .newList)]
+    let w1 := w0.run .cur [(failingAfterTake, .analyse [1])]
     -- the failing analysis
-    (w0.step failingAfterTake (.analyse [1])).2 = .err .other ∧
+    (w0.step .cur failingAfterTake (.analyse [1])).2 = .err .other ∧
     -- then an empty text: Ok on both, …
-    (w1.step plain (.analyse [])).2 = .ok ∧ (w0.step plain (.analyse [])).2 = .ok ∧
+    (w1.step .cur plain (.analyse [])).2 = .ok ∧ (w0.step .cur plain (.analyse [])).2 = .ok ∧
     -- … but only the fresh tokenizer's result can be collected
-    ((w1.step plain (.analyse [])).1.collect 0).2 = .panic ∧
-    ((w0.step plain (.analyse [])).1.collect 0).2 = .ok ∧
-    (w1.step plain (.analyse [])).1.tok.topPath = none ∧ (w0.step plain (.analyse [])).1.tok.topPath = some [] := by
+    ((w1.step .cur plain (.analyse [])).1.collect 0).2 = .panic ∧
+    ((w0.step .cur plain (.analyse [])).1.collect 0).2 = .ok ∧
+    (w1.step .cur plain (.analyse [])).1.tok.topPath = none ∧
+    (w0.step .cur plain (.analyse [])).1.tok.topPath = some [] := by
+  decide
+
+/-- the same failure by a panic after the path was taken (`split_path`, caught by the caller) -/
+def panickingAfterTake : Payload Nat := Recycle.IO.payloadOf [] [[1]] true .unwind 0 0 true
+
+/-- **top_path_none_fixed_example** (the mirror of `top_path_none_counterexample` for the repaired `reset`).
+The same history - `new list; analyse "a"` failing after the path was taken (once with `Err`, once with a panic),
+the path is `None` afterwards; `analyse ""` - now returns Ok WITH a path, `collect_results` succeeds, and
+tokenizer and list are exactly what a new tokenizer gives. -/
+theorem top_path_none_fixed_example :
+    let w0 : World Nat := (World.init .C).run .fix [(plain, .newList)]
+    let w1 := w0.run .fix [(failingAfterTake, .analyse [1])]
+    let w2 := w0.run .fix [(panickingAfterTake, .analyse [1])]
+    -- the failing analyses: the path is taken and not given back
+    (w0.step .fix failingAfterTake (.analyse [1])).2 = .err .other ∧ w1.tok.topPath = none ∧
+    (w0.step .fix panickingAfterTake (.analyse [1])).2 = .panic ∧ w2.tok.topPath = none ∧
+    -- then an empty text: Ok on all three, with an empty result path
+    (w1.step .fix plain (.analyse [])).2 = .ok ∧ (w2.step .fix plain (.analyse [])).2 = .ok ∧
+    (w0.step .fix plain (.analyse [])).2 = .ok ∧
+    (w1.step .fix plain (.analyse [])).1.tok.topPath = some [] ∧
+    (w2.step .fix plain (.analyse [])).1.tok.topPath = some [] ∧
+    (w0.step .fix plain (.analyse [])).1.tok.topPath = some [] ∧
+    -- and every result can be collected, giving the same (empty) list as the new tokenizer
+    ((w1.step .fix plain (.analyse [])).1.collect 0).2 = .ok ∧
+    ((w2.step .fix plain (.analyse [])).1.collect 0).2 = .ok ∧
+    ((w0.step .fix plain (.analyse [])).1.collect 0).2 = .ok ∧
+    (((w1.step .fix plain (.analyse [])).1.collect 0).1.lists.map (fun L => (L.part, L.nodes)) = [(0, [])]) ∧
+    (((w2.step .fix plain (.analyse [])).1.collect 0).1.lists.map (fun L => (L.part, L.nodes)) = [(0, [])]) ∧
+    (((w0.step .fix plain (.analyse [])).1.collect 0).1.lists.map (fun L => (L.part, L.nodes)) = [(0, [])]) := by
   decide
 
 /-- set_subset then set_mode: the reused tokenizer's flag set is NOT a superset of the flag set of a new
@@ -182,20 +321,75 @@ theorem set_subset_history_free (t t' : Tok E) (s : Subset) (h : t.mode = t'.mod
 
 /-! ### non-vacuity -/
 
-/-- the hypotheses of `reset_establishes` / `history_independent_partial` / `failure_recoverable` are met by
-a concrete history: a tokenizer that analysed a longer text (Ok), then a failing one (`Disconnect`), is in a
-state with stale lattice rows and tables, satisfies `Inv`, keeps its path, and `OffsetsInRange` holds. -/
-example :
+/-- the hypotheses of `reset_establishes` / `history_independent_partial` / `failure_recoverable_partial` are
+met by a concrete history, for both variants of `reset`: a tokenizer that analysed a longer text (Ok), then a
+failing one (`Disconnect`), is in a state with stale lattice rows and tables, satisfies `Inv`, keeps its path, and
+`OffsetsInRange` holds. -/
+example : ∀ v : ResetVariant,
     let P1 : Payload Nat := Recycle.IO.payloadOf [] [[1], [2], [3]] true (.path 3) 0 0 true
     let P2 : Payload Nat := Recycle.IO.payloadOf [] [[1], []] false .none 0 0 true
     let t0 : Tok Nat := Tok.create .C
-    let t1 := (t0.analyse P1 [1, 1, 1]).1
-    let t2 := (t1.analyse P2 [1, 1]).1
-    (t0.analyse P1 [1, 1, 1]).2 = .ok ∧ (t1.analyse P2 [1, 1]).2 = .err .disconnect ∧
+    let t1 := (t0.analyse v P1 [1, 1, 1]).1
+    let t2 := (t1.analyse v P2 [1, 1]).1
+    (t0.analyse v P1 [1, 1, 1]).2 = .ok ∧ (t1.analyse v P2 [1, 1]).2 = .err .disconnect ∧
     (t2.topPathIds = [] ∧ t2.input.replaces = []) ∧ t2.topPath.isSome = true ∧ t2.lattice.ends.length = 4 ∧
-    (Input.prepare P1 (t2.resetWith [1, 1, 1]).input).2 = .ok ∧
-    (Input.prepare P1 (t2.resetWith [1, 1, 1]).input).1.modC2b.length - 1 ≤
-      (Input.prepare P1 (t2.resetWith [1, 1, 1]).input).1.modChars.length := by
+    (Input.prepare P1 (t2.resetWith v [1, 1, 1]).input).2 = .ok ∧
+    (Input.prepare P1 (t2.resetWith v [1, 1, 1]).input).1.modC2b.length - 1 ≤
+      (Input.prepare P1 (t2.resetWith v [1, 1, 1]).input).1.modChars.length := by
+  intro v; cases v <;> decide
+
+/-- the hypotheses of `history_independent` / `failure_recoverable` / `ok_analysis_collectable` (repaired `reset`)
+are met by the histories the `cur` variant fails on: a tokenizer that analysed a longer text (Ok) and then failed
+AFTER the path was taken - with an `Err` (`t2`) or with a panic (`t2'`) - has stale rows, NO result path, satisfies
+`Inv`; the failure hypothesis holds, `OffsetsInRange` holds for the next text (here a longer one and the empty
+one), and the next analysis is Ok. -/
+example :
+    let P1 : Payload Nat := Recycle.IO.payloadOf [] [[1], [2], [3]] true (.path 3) 0 0 true
+    let t0 : Tok Nat := Tok.create .C
+    let t1 := (t0.analyse .fix P1 [1, 1, 1]).1
+    let t2 := (t1.analyse .fix failingAfterTake [1]).1
+    let t2' := (t1.analyse .fix panickingAfterTake [1]).1
+    (t1.analyse .fix failingAfterTake [1]).2 = .err .other ∧ (t1.analyse .fix failingAfterTake [1]).2 ≠ .ok ∧
+    (t1.analyse .fix panickingAfterTake [1]).2 = .panic ∧ (t1.analyse .fix panickingAfterTake [1]).2 ≠ .ok ∧
+    t2.topPath = none ∧ t2'.topPath = none ∧
+    (t2.topPathIds = [] ∧ t2.input.replaces = []) ∧ (t2'.topPathIds = [] ∧ t2'.input.replaces = []) ∧
+    t2.lattice.ends.length = 4 ∧
+    (Input.prepare P1 (t2.resetWith .fix [1, 1, 1]).input).2 = .ok ∧
+    (Input.prepare P1 (t2.resetWith .fix [1, 1, 1]).input).1.modC2b.length - 1 ≤
+      (Input.prepare P1 (t2.resetWith .fix [1, 1, 1]).input).1.modChars.length ∧
+    (Input.prepare plain (t2.resetWith .fix []).input).2 = .ok ∧
+    (Input.prepare plain (t2.resetWith .fix []).input).1.modC2b.length - 1 ≤
+      (Input.prepare plain (t2.resetWith .fix []).input).1.modChars.length ∧
+    (t2.analyse .fix P1 [1, 1, 1]).2 = .ok ∧ (t2.analyse .fix plain []).2 = .ok ∧
+    (t2'.analyse .fix plain []).2 = .ok := by
   decide
+
+/-- `run_history_independent` on a concrete history with a failure after the path was taken and a collect in
+between: the hypothesis `OffsetsInRange` holds, and the conclusion is not vacuous (the probe is Ok). -/
+example :
+    let P1 : Payload Nat := Recycle.IO.payloadOf [] [[1], [2], [3]] true (.path 3) 0 0 true
+    let ops : List (Payload Nat × Op Nat) :=
+      [(plain, .newList), (P1, .analyse [1, 1, 1]), (plain, .collect 0), (failingAfterTake, .analyse [1]),
+       (plain, .collect 0), (plain, .setMode .A)]
+    let t := ((World.init .C).run .fix ops).tok
+    t.topPath = none ∧
+    (Input.prepare plain (t.resetWith .fix []).input).1.modC2b.length - 1 ≤
+      (Input.prepare plain (t.resetWith .fix []).input).1.modChars.length ∧
+    (t.analyse .fix plain []).2 = .ok := by
+  decide
+
+/-- the hypotheses of `run_history_independent_partial` (both variants of `reset`) are met by a history without a
+failure behind `resolve_best_path` (Ok, collect, `TooLong`-free `Disconnect`, mode change): the path is present. -/
+example : ∀ v : ResetVariant,
+    let P1 : Payload Nat := Recycle.IO.payloadOf [] [[1], [2], [3]] true (.path 3) 0 0 true
+    let P2 : Payload Nat := Recycle.IO.payloadOf [] [[1], []] false .none 0 0 true
+    let ops : List (Payload Nat × Op Nat) :=
+      [(plain, .newList), (P1, .analyse [1, 1, 1]), (plain, .collect 0), (P2, .analyse [1, 1]), (plain, .setMode .A)]
+    let t := ((World.init .C).run v ops).tok
+    t.topPath.isSome = true ∧
+    (Input.prepare P1 (t.resetWith v [1, 1, 1]).input).1.modC2b.length - 1 ≤
+      (Input.prepare P1 (t.resetWith v [1, 1, 1]).input).1.modChars.length ∧
+    (t.analyse v P1 [1, 1, 1]).2 = .ok := by
+  intro v; cases v <;> decide
 
 end C10
